@@ -151,6 +151,8 @@ class Sess:
                 bytes([5] + [0] * rng.choice([12, 16, 26])),
                 bytes([0xFF] * rng.choice([12, 13, 24])),
                 bytes([4]) + b"0" * rng.choice([12, 20]),
+                bytes([5, 0x04, 0x0C] + [0] * 12 + [1]),          # looks like an empty msgAuthenticationParameters field
+                bytes([5, 0x04, 0x08] + [0] * 8 + [0x04, 0x0C] + [0xFF] * 12),
             ])
         boots, tm = self.new_ident()
         self.agent = rigp.Agent(self.handle, engine_id=self.engine_id, boots=boots, etime=tm,
@@ -554,7 +556,7 @@ def gen_cfg(rng, knobs):
         return rigp.Cfg(ver, community=comm, client=cl)
     auth = rng.choice(knobs.get("auths", [None, "md5", "sha1", "md5", "sha1"]))
     priv = rng.choice(knobs.get("privs", [None, "des", "aes"])) if auth else None
-    user = rng.choice(["u", "user10", "a" * 32, "n" * rng.choice([0, 1, 64, 127, 128, 200]), "\x00" * rng.choice([12, 13, 31]) + "z"])
+    user = rng.choice(["u", "user10", "a" * 32, "n" * rng.choice([0, 1, 64, 127, 128, 200]), "\x00" * rng.choice([12, 13, 31]) + "z", "\x00" * 12])
     if user == "" and auth:
         user = "z"
     kt = knobs.get("key_types", ["password", "master", "localized"])
@@ -598,6 +600,7 @@ def worker(job):
     nsess = knobs.get("sessions", 4)
     sessions = []
     shared_users = {}
+    key_objects = {}   # pass-phrase key objects reused between different User objects (odd job seeds)
     preset = job.get("cfgs")   # explicit configurations (a systematic matrix) instead of drawn ones
     for i in range(len(preset) if preset else nsess):
         rel = None
@@ -629,7 +632,7 @@ def worker(job):
             if cfg.version == "v3" and cfg.auth_kt != "localized" and cfg.priv_kt != "localized":
                 key = repr(sorted((k, v) for k, v in cfg.to_json().items() if k in ("user", "auth", "priv", "auth_kt", "priv_kt", "auth_pw", "priv_pw", "auth_raw", "priv_raw")))
                 if key not in shared_users:
-                    shared_users[key] = rigp.make_user(cfg, s.engine_id)
+                    shared_users[key] = rigp.make_user(cfg, s.engine_id, key_cache=key_objects if knobs.get("share_key_objects", job["seed"] % 2) else None)
                 s.user_obj = shared_users[key]
             s.start()
         except BaseException as e:  # a valid configuration must be accepted
